@@ -116,6 +116,7 @@ Theorem site_ok_meaning : forall s,
   site_ok s = true ->
   exists b, bindx (s_sig s) (s_call s) = BOk b /\
     (forall p x r, In (p, ABare x r) (b_named b) -> same_meaning (s_callee s) x p = true) /\
+    (forall p x, In (p, ALocal x) (b_named b) -> x = p \/ ~ In x (param_names (s_sig s))) /\
     (forall x, ~ In (AUndefined x) (c_pos (s_call s))) /\
     (forall k x, ~ In (k, AUndefined x) (c_kw (s_call s))) /\
     (forall x, In x (s_wparams s) -> In x (param_names (s_sig s)) ->
@@ -128,8 +129,8 @@ Proof. exact site_ok_sound. Qed.
    Each is a genuine defect confirmed by execution (harness/calls_lib.py RECIPES):
    - Gillespie_Arbitrary forwards **sim_kwargs whose default is None (TypeError),
      and drops spont_kwargs / nbr_kwargs;
-   - SIR_individual_based_pure_IC passes 11 positionals shifted by one (callee has
-     `rho` in 6th place): nodelist lands on rho, tmin on nodelist, ...;
+   - SIR_individual_based_pure_IC passes 12 positionals to a callee whose 4th
+     parameter is `rho`: nodelist lands on rho, X0 on Y0, Y0 on X0, tmin on nodelist, ...;
    - SIR_heterogeneous_meanfield_from_graph passes return_full_data=False;
    - SIR_effective_degree_from_graph never passes initial_recovereds on;
    - Attack_rate_discrete_from_graph passes the undefined name PhiS0. *)
@@ -147,7 +148,8 @@ Theorem forwarding_bad_sites_reasons :
   bad_report sites =
   [ ("Gillespie_Arbitrary->Gillespie_simple_contagion@0", [RBind StarArg]);
     ("SIR_individual_based_pure_IC->SIR_individual_based@0",
-       [RName "nodelist" "rho"; RName "tmin" "nodelist"; RName "tmax" "tmin";
+       [RName "nodelist" "rho"; RLocalName "X0" "Y0"; RLocalName "Y0" "X0";
+        RName "tmin" "nodelist"; RName "tmax" "tmin";
         RName "tcount" "tmax"; RName "transmission_weight" "tcount";
         RName "recovery_weight" "transmission_weight";
         RName "return_full_data" "recovery_weight"; RDropped "return_full_data"]);
